@@ -83,9 +83,9 @@ type CT1 struct{ V int }
 type CT36 struct{ V int } // main.CT36 hashes to the same registry shard as main.CT1
 type CT9 struct{ V int }
 
-func (e CT1) val() int { return e.V }
+func (e CT1) val() int  { return e.V }
 func (e CT36) val() int { return e.V }
-func (e CT9) val() int { return e.V }
+func (e CT9) val() int  { return e.V }
 
 func (cc *concCase) publishTy(ctx context.Context, ty, v int) {
 	switch ty {
